@@ -36,7 +36,7 @@ Print Assumptions C16_split.
 Theorem C16_reassembly_interleaved : forall h data tr s,
   let k := s_system h in
   rs_lookup k s = None ->
-  filter (fun b => (s_system (sb_hdr b) =? k)%Z) tr = split_blocks data h true ->
+  filter (fun b => (msg_key (sb_hdr b) =? k)%Z) tr = split_blocks data h true ->
   let n := length (split_blocks data h true) in
   outs_of k tr (snd (feed s tr)) = repeat None (n - 1) ++ [Some (with_block h (Z.of_nat n) true, data)] /\
   rs_lookup k (fst (feed s tr)) = None.
@@ -52,7 +52,7 @@ Print Assumptions C16_reassembly_interleaved.
    never completed (a later block was refused, the sender starts over) are dropped when the first block of the message arrives *)
 Theorem C16_reassembly_after_abandoned_attempt : forall h data tr s,
   let k := s_system h in
-  filter (fun b => (s_system (sb_hdr b) =? k)%Z) tr = split_blocks data h true ->
+  filter (fun b => (msg_key (sb_hdr b) =? k)%Z) tr = split_blocks data h true ->
   let n := length (split_blocks data h true) in
   outs_of k tr (snd (feed s tr)) = repeat None (n - 1) ++ [Some (with_block h (Z.of_nat n) true, data)] /\
   rs_lookup k (fst (feed s tr)) = None.
@@ -92,5 +92,5 @@ Definition sample_h : shdr := {| s_system := 0xfffffffe; s_device := 32767; s_st
                                  s_r := true; s_w := true; s_e := false |}.
 Example C16_sample_in_domain :
   hdr_fields_ok sample_h /\ length (split_blocks (repeat 7 489) sample_h true) = 3%nat /\
-  filter (fun b => (s_system (sb_hdr b) =? s_system sample_h)%Z) (split_blocks (repeat 7 489) sample_h true) = split_blocks (repeat 7 489) sample_h true.
+  filter (fun b => (msg_key (sb_hdr b) =? msg_key sample_h)%Z) (split_blocks (repeat 7 489) sample_h true) = split_blocks (repeat 7 489) sample_h true.
 Proof. split; [unfold hdr_fields_ok, sample_h; cbn; lia|]. split; vm_compute; reflexivity. Qed.
